@@ -1,15 +1,98 @@
-import MaltModel.Proofs.C18Visit
+import MaltModel.Proofs.C18Stmt
+import MaltModel.Proofs.C18Rejects
+import MaltModel.Py.SemAnfStd
 /-
-C18 — A-normal-form transformation preserves evaluation order and yields ANF.  (work in progress)
+C18 — A-normal-form transformation preserves evaluation order and yields ANF.
+
+Model: `Conv.Anf` (`visitE`/`visitS`/`anf`, a functional mirror of `AnfTransformer`), specification-side
+predicates in `Conv.AnfSpec`, semantics `Py.SemAnf`.  Theorems are for all programs of `Py.Ast` and all
+configurations (lists of edge patterns) unless a hypothesis says otherwise.
 -/
 namespace Malt.Props.C18
 open Malt.Py Malt.Anf
 
-/-- Expression level: what a successful visit leaves in place is in A-normal form for the configuration
-(`quiet`: the transformer itself would not touch it again), and the pending statements are assignments
-`tmp_(1001+n) = …`, …, `tmp_(1000+n') = …` of expressions in A-normal form. -/
-theorem C18_expr_is_anf (cfg : Config) (e : Expr) (n : Nat) (e' : Expr) (D : List Stmt) (n' : Nat)
+private theorem anf_ok {cfg : Config} {p : Stmt} {q : List Stmt} (h : anf cfg p = .ok q) :
+    ∃ n' pend', visitS cfg p 0 [] = .ok (q, n', pend') := by
+  unfold anf at h
+  cases hv : visitS cfg p 0 [] with
+  | error e => rw [hv] at h; simp [Except.map] at h
+  | ok r =>
+    rw [hv] at h
+    simp only [Except.map, Except.ok.injEq] at h
+    obtain ⟨q', n', pend'⟩ := r
+    exact ⟨n', pend', by simp at h; rw [h]⟩
+
+/-! ## 1. The output is in A-normal form -/
+
+/-- **C18_is_anf** — for every program and every configuration: if the transformer accepts `p`, every
+statement of the result is in A-normal form for the configuration (`AnfS`): each expression position the
+transformer inspects (`okChild`: call arguments/keywords/`*`/`**` operands, operator operands, attribute
+bases, subscripts, display elements, `return`/`raise` operands, `if`/`for`/`with`/`while` headers, …) holds a
+variable (or `...`) or is not selected by the configuration, recursively; and each generated assignment
+`tmp_N = …` holds the copy of such an expression. -/
+theorem C18_is_anf (cfg : Config) (p : Stmt) (q : List Stmt) (h : anf cfg p = .ok q) : AnfSs cfg q := by
+  obtain ⟨n', pend', hv⟩ := anf_ok h
+  exact ((visitS_inv cfg p 0 [] q n' pend' hv).anf (fun t ht => by simp at ht)).1
+
+/-- Expression level (used by `C18_is_anf`): what a successful visit leaves in place is `quiet` — the
+transformer would not touch it again — and the pending statements are `tmp_(1001+n) = …`, …,
+`tmp_(1000+n') = …` in this order, each assigning an expression that is itself `quiet`. -/
+theorem C18_is_anf_expr (cfg : Config) (e : Expr) (n : Nat) (e' : Expr) (D : List Stmt) (n' : Nat)
     (h : visitE cfg e n = .ok (e', D, n')) : quiet cfg e' = true ∧ HoistsOk cfg n D n' :=
   ⟨(visitE_inv cfg e n e' D n' h).quiet, (visitE_inv cfg e n e' D n' h).hoists⟩
+
+/-- `quiet` is exactly "already in A-normal form": the transformer is the identity on it and adds nothing
+(idempotence of the transformation on its own output follows with `C18_is_anf_expr`). -/
+theorem C18_quiet_fixed (cfg : Config) (e : Expr) (n : Nat) :
+    quiet cfg e = true ↔ visitE cfg e n = .ok (e, [], n) :=
+  ⟨visitE_quiet cfg e n, fun h => (quiet_iff_visit_nil cfg e n).mpr ⟨e, n, h⟩⟩
+
+/-! ## 2. Temporaries -/
+
+/-- **C18_temps** (what `DummyGensym` provides) — for every program and configuration, the pending
+statements created while visiting an expression assign *exactly* `tmp_(1001+n), …, tmp_(1000+n')`, once
+each, in order: pairwise distinct. -/
+theorem C18_temps_generated (cfg : Config) (e : Expr) (n : Nat) (e' : Expr) (D : List Stmt) (n' : Nat)
+    (h : visitE cfg e n = .ok (e', D, n')) : tmpTargetsSs D = temps n n' ∧ (tmpTargetsSs D).Nodup := by
+  have f := hoists_facts (visitE_inv cfg e n e' D n' h).hoists
+  exact ⟨f.2.1, f.2.1 ▸ temps_nodup n n'⟩
+
+/-- **C18_temps** — whole programs: if no identifier of `p` has the form `tmp_N` (`N ≥ 1001`), the assignments
+`tmp_N = …` of the output are `tmp_1001, tmp_1002, …` in program order without gaps or repetitions (a prefix
+of that sequence: pending statements left over at the very end are dropped), hence pairwise distinct, and
+distinct from every identifier of `p`. -/
+theorem C18_temps (cfg : Config) (p : Stmt) (q : List Stmt) (hn : NoTempNames p) (h : anf cfg p = .ok q) :
+    (∃ m, tmpTargetsSs q <+: temps 0 m) ∧ (tmpTargetsSs q).Nodup ∧ ∀ t ∈ tmpTargetsSs q, t ∉ namesS p := by
+  obtain ⟨n', pend', hv⟩ := anf_ok h
+  have ht := (visitS_inv cfg p 0 [] q n' pend' hv).temps hn
+  simp only [tmpTargetsSs, List.nil_append] at ht
+  have hpre : tmpTargetsSs q <+: temps 0 n' := ⟨_, ht⟩
+  refine ⟨⟨n', hpre⟩, hpre.sublist.nodup (temps_nodup 0 n'), fun t ht' hmem => ?_⟩
+  have : t ∈ temps 0 n' := hpre.subset ht'
+  simp only [temps, List.mem_map] at this
+  obtain ⟨k, -, rfl⟩ := this
+  have := hn _ hmem
+  rw [isTempName_tmpName] at this
+  exact Bool.noConfusion this
+
+/-! ## 3. Rejection of constructs whose laziness cannot be preserved -/
+
+/-- **C18_rejects** — for every expression, configuration and counter: the visit succeeds iff `acceptsE`:
+no comprehension / generator expression, no chained comparison, no node kind outside the model, and every
+lazy construct (`and`/`or`, conditional expression, `lambda`, `await`, `yield from`, f-string parts) is
+`quiet`, i.e. nothing inside it would have to be hoisted out of it.  (Error ⇔ ¬ `acceptsE`.) -/
+theorem C18_rejects (cfg : Config) (e : Expr) (n : Nat) :
+    (∃ r, visitE cfg e n = .ok r) ↔ acceptsE cfg e = true :=
+  acceptsE_iff cfg e n
+
+/-- A lazy construct is never transformed: if it is accepted, it is returned unchanged and nothing is hoisted
+out of it (so its operands are still evaluated lazily). -/
+theorem C18_lazy_untouched (cfg : Config) (i : Nat) (isAnd : Bool) (vs : List Expr) (n : Nat) (r : Expr × List Stmt × Nat)
+    (h : visitE cfg (.boolop i isAnd vs) n = .ok r) : r = (.boolop i isAnd vs, [], n) := by
+  have hq : quiet cfg (.boolop i isAnd vs) = true := by
+    have := (acceptsE_iff cfg (.boolop i isAnd vs) n).mp ⟨r, h⟩
+    simpa [acceptsE] using this
+  rw [visitE_quiet cfg _ n hq] at h
+  exact (Except.ok.inj h).symm
 
 end Malt.Props.C18
